@@ -334,6 +334,12 @@ class StructSequenceEntry(SequenceEntry[_T]):
 
     def codify(self, /, node: str = '') -> str:
         """Generate code for accessing the path entry."""
+        # Unnamed sequence fields (e.g., ``os.stat_result[7:10]``, the integer timestamps) can only
+        # be accessed by index: the attribute with the reported name is a different, non-sequence
+        # field (``os.stat_result.st_atime`` is the floating-point timestamp).
+        num_named_fields = self.type.n_sequence_fields - self.type.n_unnamed_fields
+        if self.entry >= num_named_fields:
+            return f'{node}[{self.entry!r}]'
         return f'{node}.{self.field}'
 
 
